@@ -210,6 +210,8 @@ def map_accuracy_probe(ctx, n: int) -> None:
 
 
 def run(ctx) -> None:
+    from prom_corr import run_prom_correspondence
+    run_prom_correspondence(ctx, "C12", ctx.n(300, 6000))
     for p, En, real, model, entry in run_maps_correspondence(ctx, "C12", ctx.n(10, 200)):
         mismatch_failure(ctx.report, "C12", p, En, real, model, entry)
     for p, En, real, model, entry in run_maps_correspondence(ctx, "C12", ctx.n(6, 100), force=weak, classes=list(STRENGTHS)):
